@@ -9,7 +9,6 @@
     D30  `adjust_cross_origin_area`: only protoclusters take the core branches
     D31  `adjust_cross_origin_area`: the side of the core is `core_start >= feature.start`
   Mutation through `self`/closures becomes returned values; `ValueError`/`assert` become `none`.
-  Strings irrelevant to the layout (prefix, category, tool) are not modelled.
   No imports outside ASV.Model (driver-linkable).
 -/
 import ASV.Model.Loc
@@ -36,6 +35,20 @@ inductive Kind where
   | proto | cand | sub
 deriving DecidableEq, Repr, Inhabited
 
+/-- the strings `Area.from_feature` reads from a feature -/
+structure Labels where
+  /-- `product` (protocluster) / `"CC n: kind"` (candidate cluster) / `label` (subregion) -/
+  product : String := ""
+  /-- `feature.tool` (protoclusters, subregions) -/
+  tool : String := ""
+  /-- `feature.product_category` (protoclusters) -/
+  category : String := ""
+  /-- `isinstance(feature, SideloadedProtocluster / SideloadedSubRegion)` -/
+  sideloaded : Bool := false
+deriving DecidableEq, Repr, Inhabited
+
+instance : Coe String Labels := ⟨fun s => { product := s }⟩
+
 /-- a `CDSCollection` as seen by `pack` / `build_area_rows` -/
 structure Feat where
   loc : Loc
@@ -44,11 +57,12 @@ structure Feat where
   core : Loc := default
   /-- `candidate.kind == SINGLE` -/
   single : Bool := false
-  /-- the label `Area.from_feature` derives (product / "CC n: kind" / subregion label) -/
-  product : String := ""
+  /-- product / tool / category / sideloaded -/
+  labels : Labels := {}
 deriving DecidableEq, Repr, Inhabited
 
 namespace Feat
+def product (f : Feat) : String := f.labels.product
 def start (f : Feat) : Int := locStart f.loc
 def «end» (f : Feat) : Int := locEnd f.loc
 /-- `CDSCollection.crosses_origin`: `len(location.parts) > 1` -/
@@ -108,6 +122,9 @@ structure Area where
   nend : Int
   product : String := ""
   group : Int := 0
+  «prefix» : String := ""
+  category : String := ""
+  tool : String := ""
 deriving DecidableEq, Repr, Inhabited
 
 /-- `Area.crosses_origin` -/
@@ -117,13 +134,20 @@ def Area.crossesOrigin (a : Area) : Bool := decide (a.nstart > a.nend)
 def Area.offset (a : Area) (d : Int) : Area :=
   { a with start := a.start + d, «end» := a.end + d, nstart := a.nstart + d, nend := a.nend + d }
 
-/-- `Area.from_feature(feature, height=height)` (the two asserts hold by construction) -/
+/-- `Area.from_feature(feature, height=height)` (the two asserts hold by construction): the
+    core coordinates, category and tool of a protocluster, `"tool:"` as prefix of a sideloaded
+    protocluster, `tool` + `":"`-if-labelled as prefix of a sideloaded subregion, the tool of
+    an ordinary subregion -/
 def Area.fromFeature (f : Feat) (height : Int) : Area :=
+  let l := f.labels
   let base : Area := { start := f.start, «end» := f.end, kind := f.kind, height := height,
-                       nstart := f.start, nend := f.end, product := f.product }
+                       nstart := f.start, nend := f.end, product := l.product }
   match f.kind with
-  | .proto => { base with start := f.coreStart, «end» := f.coreEnd }
-  | _ => base
+  | .proto => { base with start := f.coreStart, «end» := f.coreEnd, category := l.category, tool := l.tool,
+                          «prefix» := if l.sideloaded then l.tool ++ ":" else "" }
+  | .cand => base
+  | .sub => { base with «prefix» := if l.sideloaded then l.tool ++ (if l.product != "" then ":" else "") else "",
+                        tool := if l.sideloaded then "" else l.tool }
 
 /-- `adjust_cross_origin_area(area, feature, region_crosses_origin, length)`.
     Returns the modified `area` and the optional `extra`; `gid` is the value `id(self)` that
